@@ -552,6 +552,13 @@ def case_triangles(ctx):
     g = R.gen_graph(r, ctx.desc["kind"], pick_n(ctx, cap=4000), directed=False)
     # an undirected simple graph (parallel edges have no agreed meaning for a triangle count); self loops stay
     g = R.simplify(g, drop_loops=False, drop_multi=True)
+    # every other graph gets self loops on a few nodes, whatever its shape (a node listed among its own neighbours splits
+    # its sorted neighbour list exactly where the counting variants cut it into smaller/larger neighbours)
+    if g.n >= 2 and r.below(2):
+        for _ in range(1 + r.below(max(1, min(40, g.n // 6)))):
+            u = r.below(g.n)
+            if all(v != u for v, _ in g.adj[u]):
+                g.adj[u].append((u, None))
     if r.below(2):
         R.sort_adj(g)
     exp = R.triangles(g)
